@@ -9,7 +9,6 @@ import (
 	"encoding/json"
 	"fmt"
 	"math"
-	"regexp"
 	"strings"
 	"testing"
 
@@ -926,9 +925,8 @@ func reportBin(s *script, name, desc string, want outcome, optimize bool, args .
 	}
 	// extract the function's source line for the replay
 	fsrc := ""
-	re := regexp.MustCompile(`\b` + regexp.QuoteMeta(name) + `\b`)
 	for _, l := range strings.Split(s.src, "\n") {
-		if re.MatchString(l) {
+		if strings.Contains(l, name) { // the function and the declarations made for it (their names contain its name)
 			fsrc += l + "\n"
 		}
 	}
